@@ -38,6 +38,15 @@ PREENCODED = gzip.compress(b'already compressed ' * 200, mtime=0)   # fixed byte
 RAND = bytes((i * 7919 + (i >> 3) * 104729 + (i * i) % 251) % 256 for i in range(3000))
 
 
+# scenarios whose endpoints *consume* what the extractors / script root provide (falling back to the request itself
+# when the middleware is absent): a complete family in the 'alone' part only - not in the drawn strategy, so the draws
+# of the random part stay what they were
+CONSUMERS = ['useq', 'usep', 'useroot']
+CQUERIES = QUERIES[:7] + ['zp_n=5&zp_f=2.5&zq_unused2=fromquery', 'zq_n=1&zp_n=2']
+CFORMS = FORMS + [b'zq_n=9&zq_f=0.5&zq_s=fromform&zq_unused=fromform', b'zp_n=3&zq_n=4']
+MISSING = object()
+
+
 def make_mw(name):
     from clastic import middleware as m
     from clastic.middleware.stats import StatsMiddleware
@@ -105,6 +114,19 @@ def build(stack, level):
 
     def form(request):
         return Response('form:%s' % request.form.get('x', '-') * 50)
+
+    def useq(request, zq_n=MISSING, zq_f=MISSING, zq_s=MISSING, zq_unused=MISSING):
+        got = [request.args.get(n, None, t) if v is MISSING else v
+               for n, t, v in (('zq_n', int, zq_n), ('zq_f', float, zq_f), ('zq_s', str, zq_s), ('zq_unused', str, zq_unused))]
+        return Response('useq:%r' % (got,))
+
+    def usep(request, zp_n=MISSING, zp_f=MISSING, zq_unused2=MISSING):
+        got = [request.form.get(n, None, t) if v is MISSING else v
+               for n, t, v in (('zp_n', int, zp_n), ('zp_f', float, zp_f), ('zq_unused2', str, zq_unused2))]
+        return Response('usep:%r' % (got,))
+
+    def useroot(request, script_root=MISSING):
+        return Response('useroot:%r' % (request.script_root if script_root is MISSING else script_root,))
     mws = [make_mw(n) for n in stack]
     route_mws = mws if level == 'route' else []
     app_mws = mws if level == 'app' else []
@@ -116,6 +138,8 @@ def build(stack, level):
         routes.append(Route('/' + name, ep, middlewares=route_mws))
     routes.append(POST('/wrongmethod', lambda: Response('posted'), middlewares=route_mws))
     routes.append(POST('/form', form, middlewares=route_mws))
+    for name, ep in [('useq', useq), ('usep', usep), ('useroot', useroot)]:
+        routes.append(Route('/' + name, ep, middlewares=route_mws))
     return Application(routes, middlewares=app_mws)
 
 
@@ -134,6 +158,11 @@ def get_app(stack, level):
 def request_for(scenario, method, q=0):
     path = '/' + ('no/such/url' if scenario == 'unknown' else scenario)
     body, headers = b'', {}
+    if scenario in CONSUMERS:
+        if method == 'POST':
+            body = CFORMS[(q // len(CQUERIES)) % len(CFORMS)]
+            headers['Content-Type'] = 'application/x-www-form-urlencoded'
+        return path, method, body, headers
     if scenario == 'form' or (q and method == 'POST'):
         method = 'POST'
         body = FORMS[q % len(FORMS)]
@@ -181,7 +210,7 @@ def body(case, ctx):
     base = get_app([], 'app')
     app = get_app(stack, level)
     path, method, reqbody, headers = request_for(scenario, method, q)
-    query = QUERIES[q % len(QUERIES)]
+    query = CQUERIES[q % len(CQUERIES)] if scenario in CONSUMERS else QUERIES[q % len(QUERIES)]
     if enc is not None:
         headers['Accept-Encoding'] = enc
     script = SCRIPTS[(q // 3) % len(SCRIPTS)] if q else ''
@@ -294,6 +323,13 @@ def run_shard(spec, ctx):
                   for level in ('app', 'route') for sc in SCENARIOS for method in ('GET', 'HEAD') for q in range(1, 19)]
         cases += [[[mw], level, sc, method, None, q] for mw in spec['mws'] if mw == 'profile'
                   for level in ('app', 'route') for sc in SCENARIOS for method in ('GET', 'HEAD', 'POST') for q in range(1, len(QUERIES))]
+        # consumers of the provided values: every query string x every form body, GET and POST, each extractor alone
+        # and all of them stacked in both orders
+        ext = [mw for mw in spec['mws'] if 'param' in mw or 'postdata' in mw or mw == 'scriptroot']
+        allext = ['getparam', 'getparam-typed', 'postdata', 'postdata-typed', 'scriptroot']
+        stacks = [[mw] for mw in ext] + ([allext, allext[::-1]] if 'getparam' in spec['mws'] else [])
+        cases += [[st_, level, sc, method, None, q] for st_ in stacks for level in ('app', 'route') for sc in CONSUMERS
+                  for method in ('GET', 'POST') for q in range(len(CQUERIES) * len(CFORMS))]
         ctx.loop(cases, body, kind='case', max_sigs=12)
     else:
         ctx.hyp(strategy(), body, spec['n'], kind='case')
